@@ -4,6 +4,10 @@ A  TLC exhaustive: spec/Registry (which registrations a lookup on a phantom can 
    phantom - Lookup / Look projection, OneRecordPerRegistration, ExpiredNeverMatchesAfterSweep) and spec/Classify
    (MatchSound: a match implies the flight is genuine, unaltered and for a registration currently valid on this phantom
    with the same transport and prefix; ConsumeExact).
+B  every history of one phantom's table that TLC enumerates from Gen_Classify (<= 3 connections: R's flight / another client / a probe;
+   Validate / SweepIdle / Retrack between them; the sweeper removing R between a matching lookup and MarkActive) is replayed into the
+   real RegistrationManager + handler: after every step the real table entry of R, and for every connection matched / marked used,
+   must equal what TLC computed; each history's event log is also validated as one trace of Classify.tla.
 C  real runs of handleNewTCPConn with real transports against a registry built from real registrations in several states
    (valid / tracked-but-unvalidated / expired and swept / same secret on another phantom or with another transport /
    prefix registration without parameters): genuine flights of the real client transports are offered unaltered
@@ -167,15 +171,20 @@ def run(ctx):
         raise vlib.InfraError("case mix is vacuous (%d of %d should match)" % (should, len(results)))
     if summary["rejected"] == 0:
         ctx.stage("C", corrupted_trace_rejected_at=cc.binding_demo(ctx, results[:80], summary["sdir"]))
-    ctx.cov["traces_validated_against_impl"] = summary["accepted"]
-    classes = set()
+    # ---- B + C over table HISTORIES: the registry states "reachable by sequences of register / validate / expire operations" together with the
+    # connections that meet them - R's flight arriving before validation, after expiry, after the sweeper removed R under a handler's
+    # feet (and MarkActive came too late), after a re-registration - every history TLC enumerates from Gen_Classify, replayed step by step
+    hsum = cc.histories_stage(ctx, "C02", "c02", compare_used=False)   # (marking used is C04's clause)
+    ctx.cov["traces_validated_against_impl"] = summary["accepted"] + hsum["accepted"]
+    classes = set(hsum["distinct"])
     for (_, cs, _r) in results:
         st = cs["stream"]
         classes.add((st["from"], st["client_t"], st["client_px"], cs["dst"], st["flip"], st["flip_end"], st["trunc"], st["gen"], st["len"]))
-    ctx.cov["evaluations"] = len(results)
+    ctx.cov["evaluations"] = len(results) + hsum["connections"]
     ctx.cov["distinct_nontrivial"] = len(classes)
     ctx.cov["rule"] = ("one case = (registration whose flight is used, client transport / prefix, destination phantom, altered bit, "
-                       "truncation, garbage kind); every destination except P0 carries >= 1 registration; distinct by that tuple")
+                       "truncation, garbage kind); every destination except P0 carries >= 1 registration; distinct by that tuple; "
+                       "plus one per distinct table history (initial state, operations, connection kinds, sweeper race) replayed")
     ctx.sample({"case": cases[0], "oracle": cc.oracle(w, cases[0], 32, 64)})
     ctx.sample({"case": cases[-20]})
     ctx.stage("C", connections=len(results), matched=nmatch, oracle_should_match=should, **{k: v for k, v in summary.items() if k != "sdir"})
